@@ -145,6 +145,13 @@ func c04Families(c *Check) []BashCase {
 		"if-chain-first-taken":          {If{Branches: []IfBranch{{Bf(1, true), []Stmt{pr(sl("br1")), ExprStmt{T(11)}}}, {Bf(2, true), []Stmt{pr(sl("br2"))}}}, HasElse: true, Else: []Stmt{pr(sl("else"))}}},
 		"if-chain-none-taken":           {If{Branches: []IfBranch{{Bf(1, false), []Stmt{pr(sl("br1"))}}, {cmp("<", T(2), T(1)), []Stmt{pr(sl("br2"))}}}, HasElse: true, Else: []Stmt{pr(sl("else")), ExprStmt{T(9)}}}},
 		"nested-if-in-branch":           {If{Branches: []IfBranch{{Bf(1, true), []Stmt{ifs(Bf(2, true), pr(sl("inner")))}}, {Bf(3, true), []Stmt{pr(sl("br2"))}}}}},
+		"else-holding-only-an-if/outer-taken":     {If{Branches: []IfBranch{{Bf(1, true), []Stmt{pr(sl("A"))}}}, HasElse: true, Else: []Stmt{If{Branches: []IfBranch{{Bf(2, true), []Stmt{pr(sl("inner"))}}}}}}},
+		"else-holding-only-an-if/outer-not-taken": {If{Branches: []IfBranch{{Bf(1, false), []Stmt{pr(sl("A"))}}}, HasElse: true, Else: []Stmt{If{Branches: []IfBranch{{Bf(2, true), []Stmt{pr(sl("inner"))}}, {Bf(3, true), []Stmt{pr(sl("inner2"))}}}, HasElse: true, Else: []Stmt{pr(sl("inner-else"))}}}}},
+		"else-holding-only-a-switch/outer-taken":  {def("x", il(2)), If{Branches: []IfBranch{{Bf(1, true), []Stmt{pr(sl("A"))}}}, HasElse: true, Else: []Stmt{Switch{Tag: vr("x"), Cases: []SwitchCase{{E: T(2), Body: []Stmt{pr(sl("c2"))}}, {Default: true, Body: []Stmt{pr(sl("d"))}}}}}}},
+		"else-if-then-else-with-if/second-taken":  {If{Branches: []IfBranch{{Bf(1, false), []Stmt{pr(sl("A"))}}, {Bf(2, true), []Stmt{pr(sl("B"))}}}, HasElse: true, Else: []Stmt{If{Branches: []IfBranch{{Bf(3, true), []Stmt{pr(sl("inner"))}}}}}}},
+		"if-branch-holding-only-an-if/not-taken":  {If{Branches: []IfBranch{{Bf(1, false), []Stmt{If{Branches: []IfBranch{{Bf(2, true), []Stmt{pr(sl("inner"))}}}}}}}, HasElse: true, Else: []Stmt{pr(sl("E"))}}},
+		"loop-body-holding-only-an-if":            {def("i", il(0)), For{Kind: ForCond, Cond: cmp("<", vr("i"), il(2)), Body: []Stmt{IncDec{"i", true}, If{Branches: []IfBranch{{cmp("==", vr("i"), il(1)), []Stmt{pr(sl("one"))}}}, HasElse: true, Else: []Stmt{If{Branches: []IfBranch{{Bf(5, true), []Stmt{pr(sl("inner"), vr("i"))}}}}}}}}},
+		"case-body-holding-only-an-if":            {def("x", il(1)), Switch{Tag: vr("x"), Cases: []SwitchCase{{E: il(1), Body: []Stmt{pr(sl("c1"))}}, {Default: true, Body: []Stmt{If{Branches: []IfBranch{{Bf(2, true), []Stmt{pr(sl("inner"))}}}}}}}}},
 		"switch-case-expressions":       {def("x", il(2)), Switch{Tag: vr("x"), Cases: []SwitchCase{{E: T(1), Body: []Stmt{pr(sl("c1"))}}, {E: T(2), Body: []Stmt{pr(sl("c2")), ExprStmt{T(22)}}}, {Default: true, Body: []Stmt{pr(sl("d"))}}, {E: T(3), Body: []Stmt{pr(sl("c3"))}}}}},
 		"switch-tagless":                {Switch{Cases: []SwitchCase{{E: Bf(1, false), Body: []Stmt{pr(sl("c1"))}}, {Default: true, Body: []Stmt{pr(sl("d")), ExprStmt{T(5)}}}, {E: Bf(2, false), Body: []Stmt{pr(sl("c2"))}}}}},
 		"switch-string":                 {def("k", sl("b")), Switch{Tag: vr("k"), Cases: []SwitchCase{{E: Sf(1, "a"), Body: []Stmt{pr(sl("ca"))}}, {E: Sf(2, "b"), Body: []Stmt{pr(sl("cb"))}}, {E: Sf(3, "b"), Body: []Stmt{pr(sl("cb2"))}}}}},
